@@ -229,6 +229,7 @@ func TestVerif_C14(t *testing.T) {
 						kindSig += "!"
 					}
 					modSig = append(modSig, kindSig)
+					nf.FwdOrder = rng.Intn(4) // the IEs of Update Forwarding Parameters in any order
 					if rng.Intn(3) == 0 {
 						// other bits of the flags octet (drop buffered packets, query URRs, spare) do not change what SNDEM means
 						nf.SMExtra = []uint8{0x01, 0x04, 0x05, 0x80, 0xFD}[rng.Intn(5)]
@@ -280,7 +281,32 @@ func TestVerif_C14(t *testing.T) {
 				res.event("modifications", 1)
 				w := map[string]interface{}{"up4": up4, "modification": desc, "accepted": accepted}
 				if !ok {
-					res.violate("C14.R1", "sentinel-marker-missing", "a flagged update of a forwarding FAR produced no end marker to the old tunnel within the watchdog (sentinel)", w)
+					// lost or only late? A second sentinel decides without a clock: the marker path is FIFO, so if the second
+					// sentinel's marker arrives and the first one's still has not, the first one was never emitted.
+					seq++
+					nt2 := c14Tunnel{IP: nt.IP, Teid: nt.Teid + 0x10000000, Fwd: true}
+					sm2 := vModSpec{Seq: seq, SEID: sentinel.up, UpFAR: []vFARSpec{{ID: 2, Action: ActionForward, Fwd: true, HasDst: true, DstIf: ie.DstInterfaceAccess, OHC: true, OHCTeid: nt2.Teid, OHCIP: vIPStr(nt2.IP), SndEM: true}}}
+					sr2 := c01Request(p, p.modify(sm2), seq)
+					second, first := false, false
+					if sr2 != nil && vDecodeReply(sr2).Cause == ie.CauseRequestAccepted {
+						*st = nt2
+						vWaitUntil(60*time.Second, func() bool {
+							for _, mk := range markers(mark) {
+								if mk.OK && mk.Teid == sOld.Teid && mk.Dst == sOld.IP {
+									first = true
+								}
+								if mk.OK && mk.Teid == nt.Teid && mk.Dst == nt.IP {
+									second = true
+								}
+							}
+							return second || first
+						})
+					}
+					if second && !first {
+						res.violate("C14.R1", "sentinel-marker-missing", "a flagged update of a forwarding FAR produced no end marker to the old tunnel (the marker of a later flagged update of the same rule arrived, the path is FIFO)", w)
+					} else {
+						res.inconclusive("the sentinel's end marker did not arrive within 5 s (loaded machine?); the window could not be closed")
+					}
 					return
 				}
 				got := markers(mark)
